@@ -71,12 +71,27 @@ def fault_plans(tier):
     return plans
 
 
+# (old, new, other) names: the plain ones, and names a server has to escape or to send as
+# literals (double quote, backslash, multi-byte, literal look-alike, escaped length > 1024)
+NAME_SETS = [("old", "new", "other"),
+             ('o"ld', "arch\\ive", "oth er"),
+             ("été", "new\\", "{5}"),
+             ("x" * 1000 + '"' * 20, 'n\\"w', "OK")]
+
+
 def all_cases(tier):
     cases = []
     for st in states():
         for bi in range(len(BODIES)):
             for plan_ in fault_plans(tier):
                 cases.append((st, bi, plan_))
+    # other names, listed as quoted strings or as literals: no fault, and a NO at each verb
+    for st in states():
+        for bi in (0, 1, 3):
+            for ni in range(1, len(NAME_SETS)):
+                for listing in ("quoted", "literal"):
+                    for plan_ in [()] + [((v, "NO"),) for v in VERBS]:
+                        cases.append((st, bi, plan_, ni, listing))
     return cases
 
 
@@ -99,22 +114,23 @@ def norm(b):
     return lines
 
 
-def build(st, bi, plan_, encodings="quoted"):
+def build(st, bi, plan_, encodings="quoted", names=NAME_SETS[0]):
     old, new, other, same = st
+    O, N, X = (n.encode("utf-8") for n in names)
     scripts = {}
     active = None
     if other != "none":
-        scripts[b"other"] = OTHER_BODY
+        scripts[X] = OTHER_BODY
         if other == "one-active":
-            active = b"other"
+            active = X
     if old != "absent":
-        scripts[b"old"] = BODIES[bi]
+        scripts[O] = BODIES[bi]
         if old == "active":
-            active = b"old"
+            active = O
     if not same and new != "absent":
-        scripts[b"new"] = NEW_BODY
+        scripts[N] = NEW_BODY
         if new == "active":
-            active = b"new"
+            active = N
     faults = {}
     for v, f in plan_:
         faults.setdefault(v, []).append(f)
@@ -124,9 +140,25 @@ def build(st, bi, plan_, encodings="quoted"):
     return srv
 
 
-def run_case(case, res: Result, rng=None):
-    st, bi, plan_ = case
-    srv = build(st, bi, plan_)
+def run_case(case, res: Result, rng=None, probe=False):
+    st, bi, plan_ = case[:3]
+    names = NAME_SETS[case[3]] if len(case) > 3 else NAME_SETS[0]
+    listing = case[4] if len(case) > 4 else "quoted"
+    O, N, X = (n.encode("utf-8") for n in names)
+    srv = build(st, bi, plan_, names=names)
+    if len(case) > 3:
+        res.count("cases-with-other-names")
+        res.count("listing:" + listing)
+
+        def do_list2(args, srv=srv, listing=listing):
+            if not srv._want(args):
+                return
+            for name in srv.scripts:
+                how = listing if listing == "literal" or ms.can_quote(name) else "literal"
+                srv.emit(ms.enc_string(name, how) + (b" ACTIVE" if name == srv.active else b"")
+                         + ms.CRLF)
+            srv.final("OK", None, b"Listscripts completed.")
+        srv.do_listscripts = do_list2
     seg = None
     if rng is not None:
         srv.rng = random.Random(rng.randrange(1 << 30))
@@ -149,18 +181,20 @@ def run_case(case, res: Result, rng=None):
         return
     before = dict(srv.scripts)
     before_active = srv.active
-    newname = "old" if st[3] else "new"
+    newname = names[0] if st[3] else names[1]
     mark = len(srv.commands)
-    out = sess.call("renamescript", "old", newname)
+    out = sess.call("renamescript", names[0], newname)
     after = dict(srv.scripts)
-    res.count("cases")
-    if plan_:
+    if not probe:
+        res.count("cases")
+    if plan_ and not probe:
         res.count("faulted-cases")
     res.case(repr(case), nontrivial=bool(plan_) or st[1] != "absent")
     res.observe("fault-points", "+".join("%s:%s" % p for p in plan_) or "none")
     res.observe("initial-states", "old=%s new=%s other=%s" % st[:3])
     cmds = [c[1] for c in srv.commands[mark:]]
     wit = {"state": {"old": st[0], "new": st[1], "other": st[2], "old==new": st[3]},
+           "names": list(names), "listing": listing,
            "body": BODIES[bi], "faults": [list(p) for p in plan_], "outcome": repr(out)[:200],
            "commands": cmds, "store_before": {k.decode(): v for k, v in before.items()},
            "active_before": before_active, "store_after": {k.decode(): v for k, v in after.items()},
@@ -170,11 +204,11 @@ def run_case(case, res: Result, rng=None):
     if not (out in (("ret", True), ("ret", False)) or (out[0] == "exc" and out[1] == "Error")):
         problems.append(("outcome-domain", out[1] if out[0] == "exc" else
                          ("hang" if out[0] == "hang" else repr(out[1]))))
-    nb = newname.encode()
+    nb = newname.encode("utf-8")
     # conservation
     for name, content in before.items():
-        if name == b"old" and not st[3]:
-            ok = (b"old" in after and norm(after[b"old"]) == norm(content)) \
+        if name == O and not st[3]:
+            ok = (O in after and norm(after[O]) == norm(content)) \
                 or (nb in after and norm(after[nb]) == norm(content))
             if not ok:
                 problems.append(("renamed-script-lost", "-"))
@@ -194,21 +228,36 @@ def run_case(case, res: Result, rng=None):
     if out == ("ret", True):
         res.count("true-results")
         if not st[3]:
-            if b"old" in after:
+            if O in after:
                 problems.append(("true-but-old-still-exists", "-"))
-            if nb not in after or b"old" not in before or \
-                    norm(after[nb]) != norm(before[b"old"]):
+            if nb not in after or O not in before or \
+                    norm(after[nb]) != norm(before[O]):
                 problems.append(("true-but-new-lacks-old-content", "-"))
-            if (before_active == b"old") != (srv.active == nb):
+            if (before_active == O) != (srv.active == nb):
                 problems.append(("true-but-active-flag-wrong", "-"))
             if st[1] != "absent":
                 problems.append(("true-although-target-existed", st[1]))
-        if b"old" not in before:
+        if O not in before:
             problems.append(("true-although-old-absent", "-"))
+    if probe:
+        return problems
     res.monitor("conservation", bool(problems))
+    cause = "-"
+    if problems and listing == "literal" and before_active is not None:
+        # counterfactual: the same case with the names listed as quoted strings.  If the
+        # problem vanishes it is the consequence of the ACTIVE marker being lost after a
+        # literal name (C17's recorded finding), seen from the rename emulation
+        silent = Result()
+        alt = run_case(case[:4] + ("quoted",), silent, rng, probe=True)
+        res.count("counterfactual-runs")
+        if not alt:
+            cause = "active-script-listed-as-literal"
     for what, detail in problems[:2]:
-        res.violation({"problem": what, "detail": detail,
-                       "fault": "+".join(f for _, f in plan_) or "none"}, wit)
+        sig = {"problem": what, "detail": detail,
+               "fault": "+".join(f for _, f in plan_) or "none"}
+        if cause != "-":
+            sig = {"problem": what, "cause": cause}
+        res.violation(sig, wit)
 
 
 def run_shard(tier, shard, res: Result):
@@ -218,7 +267,7 @@ def run_shard(tier, shard, res: Result):
     for i in range(s, e):
         run_case(cases[i], res, rng)
         if i % 487 == 0:
-            st, bi, plan_ = cases[i]
+            st, bi, plan_ = cases[i][:3]
             res.sample({"state": list(st), "body": BODIES[bi], "faults": [list(p) for p in plan_]}, 3)
 
 
@@ -228,4 +277,7 @@ def replay(witness, res: Result):
     from ..core import unjson_bytes
     body = unjson_bytes(witness["body"])
     bi = BODIES.index(body) if body in BODIES else 0
-    run_case((state, bi, tuple(tuple(p) for p in witness["faults"])), res)
+    case = (state, bi, tuple(tuple(p) for p in witness["faults"]))
+    if witness.get("names") and tuple(witness["names"]) in NAME_SETS:
+        case += (NAME_SETS.index(tuple(witness["names"])), witness.get("listing", "quoted"))
+    run_case(case, res)
